@@ -135,6 +135,7 @@ func (r *Receiver) SegmentHandlerFunc(w http.ResponseWriter, req *http.Request) 
 	masterSegDur := ch.masterSegDuration
 	masterTimeShift := ch.masterTimeShift
 	masterSeqNrShift := ch.masterSeqNrShift
+	maxNrBufSegs := ch.maxNrBufSegs
 	ch.mu.RUnlock()
 
 	rsd := &recSegData{name: stream.trName,
@@ -174,7 +175,7 @@ func (r *Receiver) SegmentHandlerFunc(w http.ResponseWriter, req *http.Request) 
 			}
 			seg := chunk.Segments[0]
 			moof := seg.Fragments[0].Moof
-			trd, ok := ch.trDatas[trName]
+			trd, ok := ch.getTrData(trName)
 			if !ok {
 				return fmt.Errorf("failed to find track data trName: %s", trName)
 			}
@@ -241,8 +242,8 @@ func (r *Receiver) SegmentHandlerFunc(w http.ResponseWriter, req *http.Request) 
 						}
 					}
 				}
-				if ch.maxNrBufSegs > 0 && rsd.seqNr >= ch.maxNrBufSegs {
-					removeOldSegments(log, stream.trDir, stream.ext, rsd.seqNr-ch.maxNrBufSegs)
+				if maxNrBufSegs > 0 && rsd.seqNr >= maxNrBufSegs {
+					removeOldSegments(log, stream.trDir, stream.ext, rsd.seqNr-maxNrBufSegs)
 				}
 			}
 			//TODO. Add test cases for multiple-chunks rewrite
@@ -315,12 +316,14 @@ func (r *Receiver) SegmentHandlerFunc(w http.ResponseWriter, req *http.Request) 
 	// Receive raw segments
 	nrRead := 0
 	nrWritten := 0
+	ch.mu.Lock()
 	trD, ok := ch.trDatas[stream.trName]
 	if !ok {
 		log.Debug("New raw track data")
 		trD = &trData{name: stream.trName}
 		ch.trDatas[stream.trName] = trD
 	}
+	ch.mu.Unlock()
 
 	if trD.nrSegsReceived >= ch.receiveNrRaws && (contentLength == 0 || contentLength >= 4096) {
 		log.Debug("Max number of raw segments received. Will not store.", "nrSegsReceived",
@@ -469,6 +472,9 @@ func processInitSegment(log *slog.Logger, ch *channel, s stream, data []byte, is
 		return nil, fmt.Errorf("failed to decode init segment: %w", err)
 	}
 	init := iSeg.Init
+	// The init segment is referenced from the track table and changes the MPD, so hold the MPD lock until it is encoded
+	ch.mpdMu.Lock()
+	defer ch.mpdMu.Unlock()
 	err = ch.addInitDataAndUpdateTimescale(s, init)
 	if err != nil {
 		return nil, fmt.Errorf("failed to addInitData: %w", err)
